@@ -628,14 +628,15 @@ func (d *Decimal) Modf(integ, frac *Decimal) {
 
 	// No fractional part.
 	if d.Exponent > 0 {
+		// Copy d before clearing frac: frac may alias d.
+		if integ != nil {
+			integ.Set(d)
+		}
 		if frac != nil {
 			frac.Form = Finite
 			frac.Negative = neg
 			frac.Exponent = 0
 			frac.Coeff.SetInt64(0)
-		}
-		if integ != nil {
-			integ.Set(d)
 		}
 		return
 	}
@@ -643,20 +644,23 @@ func (d *Decimal) Modf(integ, frac *Decimal) {
 	exp := -int64(d.Exponent)
 	// d < 0 because exponent is larger than number of digits.
 	if exp > nd {
+		// Copy d before clearing integ: integ may alias d.
+		if frac != nil {
+			frac.Set(d)
+		}
 		if integ != nil {
 			integ.Form = Finite
 			integ.Negative = neg
 			integ.Exponent = 0
 			integ.Coeff.SetInt64(0)
 		}
-		if frac != nil {
-			frac.Set(d)
-		}
 		return
 	}
 
 	var tmpE BigInt
 	e := tableExp10(exp, &tmpE)
+	// Read the exponent before writing to integ, which may alias d.
+	dexp := d.Exponent
 
 	var icoeff *BigInt
 	if integ != nil {
@@ -673,7 +677,7 @@ func (d *Decimal) Modf(integ, frac *Decimal) {
 	if frac != nil {
 		icoeff.QuoRem(&d.Coeff, e, &frac.Coeff)
 		frac.Form = Finite
-		frac.Exponent = d.Exponent
+		frac.Exponent = dexp
 		frac.Negative = neg
 	} else {
 		// This is the frac == nil, which means integ must not be nil since they both
